@@ -224,8 +224,14 @@ def run_unit(u):
                               (.15, lambda r, d: ('lang', [r.choice(['de', 'en', '*'])]))])
         for _ in range(u['n']):
             tops, how, kind = gen_doc(rng)
+            target = ['doc']
+            if kind == 'html' and how in ('html.parser', 'api') and rng.random() < .12:
+                # a detached fragment that wraps a whole document: whose pragma applies is unspecified, an explicit lang="" is not
+                tops = [E('div', {}, [t for t in tops])]
+                target = ['detached', 0]
+                bump('detached_wrapped_documents')
             try:
-                case = cases.Case(tops, how, ['doc'], ext={'lang': reflang.lang_ext})
+                case = cases.Case(tops, how, target, ext={'lang': reflang.lang_ext})
             except Exception:  # noqa: BLE001
                 bump('materialise_failed')
                 continue
